@@ -116,6 +116,10 @@ def menu(ctx):
     ops.append(("add_subcircuit", "nested", "bb", None))
     ops.append(("add_subcircuit", "nested", "u", {"i": "a", "o": "b"}))
     out = []
+    # 13th request for one base name: a, a_0 .. a_10 are all taken (uid then jumps to a_70)
+    for t in ("and", "buf", "input"):
+        out.append(((repr(("add", "a", t, None, None, True)), "deep-uid"), (("add", "a", t, None, None, True), "deep-uid")))
+    out.append(((repr(("add", "a", "and", ["a_3"], ["a_10"], True)), "deep-uid"), (("add", "a", "and", ["a_3"], ["a_10"], True), "deep-uid")))
     for op in ops:
         for reg in (False, True):
             out.append(((repr(op), reg), (op, reg)))
@@ -158,15 +162,21 @@ def run(ctx):
     ctx.functions(C.add, C.connect, C.disconnect, C.remove, C.set_output, C.uid, C.add_blackbox, C.add_subcircuit, C.fill_blackbox, C.relabel, C.set_type)
     kids = children()
     U = ["a", "b", "a_0", "bb.i", "bb.o"] if ctx.quick else ["a", "b", "c", "a_0", "bb.i", "bb.o"]
+    U_std = U
     for cid, (op, reg) in ctx.cases(menu(ctx)):
+        U = U_std
+        if reg == "deep-uid":
+            U = ["a"] + [f"a_{i}" for i in range(11)]
         vars_ = sg.make_vars(U)
         A = e2.acc_pre(vars_)
         pre = sg.base_pre(vars_)
         pre.append(specs.legal_wiring(U, A.present, A.typ, A.edge))
-        bbs = {"bb": (["i"], ["o"])} if reg else {}
+        bbs = {"bb": (["i"], ["o"])} if (reg and reg != "deep-uid") else {}
+        if reg == "deep-uid":
+            pre += [vars_[0][n] for n in U]  # every name is taken
         if reg == "bb_r":
             bbs["bb_r"] = ([], [])  # a pin-less instance whose name clashes with <name>_<nested instance>
-        if reg:
+        if reg and reg != "deep-uid":
             pre.append(specs.pins_ok(bbs, A.present, A.typ))
         f = make_op(op, kids)
         removed_by_caller = set()
@@ -193,7 +203,7 @@ def run(ctx):
                 res.append(("uid-fresh", z3.And(keep), "api:add-uid-overwrites", f"add(uid=True) returned {out.ret!r}: an existing node was overwritten / renamed / rewired"))
             registry = {k: (sorted(b.inputs()), sorted(b.outputs())) for k, b in c.blackboxes.items()}
             if out.kind == "raise":
-                pre_reg = {"bb": (["i"], ["o"])} if reg else {}
+                pre_reg = {"bb": (["i"], ["o"])} if (reg and reg != "deep-uid") else {}
                 if reg == "bb_r":
                     pre_reg["bb_r"] = ([], [])
                 res.append(("rejected-keeps-registry", z3.BoolVal(registry == {k_: (sorted(v_[0]), sorted(v_[1])) for k_, v_ in pre_reg.items()}), f"api:{op[0]}:rejected-call-changed-registry",
